@@ -150,6 +150,28 @@ class PathInterp(sym.Interp):
             return sp.false if want_some else sp.true
         raise sym.Unsupported(n, "let-pattern on %r" % (v,))
 
+    def ev_Match(self, n):
+        v = self.ev(n["e"])
+        if isinstance(v, sym.Variant):
+            v = self.norm_opt(v)
+        if isinstance(v, OptVal):
+            some_arm = none_arm = None
+            for a in n["arms"]:
+                d = a["pat"].get("def", "")
+                if d.endswith("Some"):
+                    some_arm = a
+                elif d.endswith("None") or a["pat"].get("k") == "Wild":
+                    none_arm = a
+            if some_arm is None or none_arm is None:
+                raise sym.Unsupported(n, "match on Option without Some/None arms")
+            if self.decide(v.some):
+                pat = some_arm["pat"]
+                sub = pat["ps"][0] if pat.get("k") == "PTupleStruct" else pat["fields"][0]["pat"]
+                self.bind(sub, v.payload, n)
+                return self.ev(some_arm["body"])
+            return self.ev(none_arm["body"])
+        raise sym.Unsupported(n, "match on %r" % (v,))
+
     def ev_If(self, n):
         c = self.ev(n["c"])
         if c is sp.true or c is True:
